@@ -67,6 +67,7 @@ Definition src_agree (which : nat) (ax : option nat) (yt yp : tensor Q) (f : rfo
 
 Inductive body :=
 | KCong (absv : bool) (As Bs : list (mat Q)) (nas nbs : list (list Q)) (impl : res (Q * list nat))
+| KCongDual (absv : bool) (As Bs : list (mat Q)) (nas nbs : list (list Q)) (vs : list Q) (brute : bool) (impl : res (Q * list nat))
 | KPermute (ref fs : list (mat Q)) (w : list Q) (nas nbs : list (list Q)) (impl : res (list Q * list (mat Q) * list nat))
 | KPermuteList (ref : list (mat Q)) (nas : list (list Q)) (ts : list (list Q * list (mat Q) * list (list Q)))
                (impl : res (list (list Q * list (mat Q) * list nat)))
@@ -101,6 +102,23 @@ Definition agree_cong absv As Bs nas nbs (impl : res (Q * list nat)) : bool :=
   | Ok (r, C), Ok (v, p) =>
       tapes_ok As nas && tapes_ok Bs nbs && optimal_on r C p &&
       qclose tol tol v (score Qops r C p)     (* returned value = mean congruence of the returned matching *)
+  | _, _ => false
+  end.
+
+(* CERTIFIED optimality at any rank (no r! enumeration): vs = column potentials computed by the harness (untrusted data).
+   Proofs.MetricsProofs9.dual_certificate_optimal: dual_gap <= eps  ==>  every matching scores at most score p + eps / r.
+   Here eps = tol * r, i.e. the returned value is within 1e-9 of the maximum (on the matrix rounded to 2^-80). *)
+Definition certified_on (r : nat) (C : mat Q) (p : list nat) (vs : list Q) : bool :=
+  let Cd := mdy C in
+  is_permb r p && Nat.eqb (length vs) r &&
+  Qle_bool (dual_gap Qops r Cd vs p) (Qred (tol * inject_Z (Z.of_nat r))).
+
+Definition agree_cong_dual absv As Bs nas nbs (vs : list Q) (brute : bool) (impl : res (Q * list nat)) : bool :=
+  match cong_matrix Qops absv As Bs nas nbs, impl with
+  | Err, Err => true
+  | Ok (r, C), Ok (v, p) =>
+      tapes_ok As nas && tapes_ok Bs nbs && certified_on r C p vs && (if brute then optimal_on r C p else true) &&
+      qclose tol tol v (score Qops r C p)
   | _, _ => false
   end.
 
@@ -166,7 +184,10 @@ Definition svd_ok (ltol : Q) (M U Vt : mat Q) (sv : list Q) : bool :=
 Definition agree_lev (renorm : bool) (ltol : Q) (M U Vt : mat Q) sv eps (impl : res (list Q)) : bool :=
   match leverage_score_dist_any Qops renorm U sv (nrows M) (ncols M) eps, impl with
   | Err, Err => true
-  | Ok lm, Ok l => svd_ok ltol M U Vt sv && q_list_close ltol ltol lm l
+  | Ok lm, Ok l => svd_ok ltol M U Vt sv && q_list_close ltol ltol lm l &&
+      (* renormalisation branch: the result is divided by its own float64 sum, so it sums to one to float64 accuracy
+         (C20_leverage_renorm_simplex: exactly one in the model) *)
+      (if renorm then Qle_bool (Qabs (Qred (fsum Qops l - 1))) (Qmake 1 1000000000000) else true)
   | _, _ => false
   end.
 
@@ -187,6 +208,11 @@ Definition ratio_t (impl : tensor Q) (parts : tensor Q * tensor Q) : bool :=
   nat_list_eqb (shape impl) (shape (fst parts)) && forallb3 ratio_ok (data impl) (data (fst parts)) (data (snd parts)).
 Definition nonneg_t (t : tensor Q) : bool := forallb (fun x => Qle_bool 0 x) (data t).
 
+(* the square root of the executed instance: floor(sqrt(x * 2^200)) / 2^100 (x > 0), else 0.  |qsqrt x - sqrt x| <= 2^-100 *)
+Definition qsqrt (x : Q) : Q :=
+  if Qle_bool x 0 then 0
+  else Qred (Qmake (Z.sqrt (Z.div (Qnum x * Zpos (2 ^ 200)%positive) (Zpos (Qden x)))) (2 ^ 100)%positive).
+
 Definition agree_reg (which : nat) (ax : option nat) (yt yp : tensor Q) (exact : bool) (impl : res (tensor Q)) : bool :=
   if negb (axis_ok ax yt) then match impl with Err => true | Ok _ => false end else
   match impl with
@@ -194,19 +220,22 @@ Definition agree_reg (which : nat) (ax : option nat) (yt yp : tensor Q) (exact :
   | Ok v =>
     match which with
     | 0%nat => close_t exact v (MSE Qops ax yt yp)
-    | 1%nat => nonneg_t v && close_t false (sq_t v) (MSE Qops ax yt yp)                       (* RMSE *)
+    | 1%nat => nonneg_t v && close_t false (sq_t v) (MSE Qops ax yt yp) &&                    (* RMSE *)
+               close_t false v (RMSE Qops qsqrt ax yt yp)
     | 2%nat => close_t false v (mk [] [R2_score Qops yt yp])
     | 3%nat => close_t exact v (covariance Qops ax yt yp)
     | 4%nat => close_t exact v (variance Qops ax yt)
-    | 5%nat => ratio_t v (corr_parts Qops ax yt yp)                                           (* correlation *)
-    | 6%nat => ratio_t v (refl_parts Qops ax yt yp)                                           (* reflective correlation *)
-    | _ => nonneg_t v && close_t false (sq_t v) (variance Qops ax yt)                     (* standard_deviation *)
+    | 5%nat => ratio_t v (corr_parts Qops ax yt yp) && close_t false v (correlation Qops qsqrt ax yt yp)
+    | 6%nat => ratio_t v (refl_parts Qops ax yt yp) && close_t false v (reflective_correlation Qops qsqrt ax yt yp)
+    | _ => nonneg_t v && close_t false (sq_t v) (variance Qops ax yt) &&                  (* standard_deviation *)
+           close_t false v (standard_deviation Qops qsqrt ax yt)
     end
   end.
 
 Definition agree (c : case) : bool :=
   match snd c with
   | KCong absv As Bs nas nbs impl => agree_cong absv As Bs nas nbs impl
+  | KCongDual absv As Bs nas nbs vs brute impl => agree_cong_dual absv As Bs nas nbs vs brute impl
   | KPermute ref fs w nas nbs impl => agree_permute ref fs w nas nbs impl
   | KPermuteList ref nas ts impl => agree_permute_list ref nas ts impl
   | KCorrIdx meth ctol f1 f2 n1 n2 impl => agree_corridx meth ctol f1 f2 n1 n2 impl
